@@ -241,11 +241,36 @@ fn routes_yaml(routes: &[RouteSpec], order: &[usize], perm: Option<u32>, upper: 
             })
             .collect();
         s.push_str(&format!("  - domain-suffixes: [{}]\n", list.join(", ")));
+        // The keys of a route in either order; a forge-nxdomain route may keep the dns-servers
+        // key of the forward route it was made from (the manual: "only used by type forward"),
+        // written before or after its type, or an empty list.
+        let (first_servers, shape) = match perm {
+            Some(p) => ((p >> (ri % 16)) & 1 == 1, (p >> 8) as usize + ri),
+            None => (ri % 2 == 1, ri / 2),
+        };
+        let servers = format!("    dns-servers: [127.0.1.{}]\n", ri + 1);
         if r.forge {
-            s.push_str("    type: forge-nxdomain\n");
+            match shape % 4 {
+                0 => s.push_str("    type: forge-nxdomain\n"),
+                1 => {
+                    s.push_str("    type: forge-nxdomain\n");
+                    s.push_str(&servers);
+                }
+                2 => {
+                    s.push_str(&servers);
+                    s.push_str("    type: forge-nxdomain\n");
+                }
+                _ => {
+                    s.push_str("    type: forge-nxdomain\n");
+                    s.push_str("    dns-servers: []\n");
+                }
+            }
+        } else if first_servers {
+            s.push_str(&servers);
+            s.push_str("    type: forward\n");
         } else {
             s.push_str("    type: forward\n");
-            s.push_str(&format!("    dns-servers: [127.0.1.{}]\n", ri + 1));
+            s.push_str(&servers);
         }
     }
     s
